@@ -241,6 +241,31 @@ def constants_in_text():
     return out
 
 
+def rule_slice_operands():
+    """C04.S.slice_operands: in the indexing emitter `_at` of compile(), every component of a slice that is PRINTED (`value_to_code(s.start/stop/step)`) is also listed among the
+    expression's inputs - the liveness / name-fusion analysis only sees listed inputs, an unlisted operand can be overwritten before it is read"""
+    import ast
+    tree, p = frame.parse("einx/_src/tracer/compiler/python/__init__.py")
+    fn = [n for n in ast.walk(tree) if isinstance(n, ast.FunctionDef) and n.name == "_at"]
+    sites, failing = [], []
+    if len(fn) != 1:
+        return False, [], [f"{frame.rel(p)}: expected exactly one `_at` helper, found {len(fn)}"]
+    printed, listed = set(), set()
+    for n in ast.walk(fn[0]):
+        if isinstance(n, ast.Call) and isinstance(n.func, ast.Name) and n.func.id == "value_to_code" and n.args and isinstance(n.args[0], ast.Attribute) and n.args[0].attr in ("start", "stop", "step"):
+            printed.add(n.args[0].attr)
+        if isinstance(n, ast.Call) and isinstance(n.func, ast.Attribute) and n.func.attr in ("append", "extend", "insert") and ast.unparse(n.func.value) == "inputs":
+            for q in ast.walk(n):
+                if isinstance(q, ast.Attribute) and q.attr in ("start", "stop", "step"):
+                    listed.add(q.attr)
+    sites.append(f"{frame.rel(p)}:{fn[0].lineno}:_at prints slice components {sorted(printed)}, lists {sorted(listed)} as inputs")
+    for a in sorted(printed - listed):
+        failing.append(f"{frame.rel(p)}:{fn[0].lineno}: slice component `{a}` is printed into the generated expression but not listed among its inputs")
+    if not printed:
+        failing.append(f"{frame.rel(p)}: `_at` prints no slice component (anchor lost)")
+    return not failing, sites, failing
+
+
 def run(tier, seed):
     chk = Check("C04", tier, seed, "other")
     ok, sites, failing = frame.rule_flow_compile()
@@ -249,6 +274,8 @@ def run(tier, seed):
     chk.add_rule("C04.S.function_and_code_from_one_cached_pair", ok, sites, failing)
     ok, sites, failing = frame.rule_names()
     chk.add_rule("C04.S.names_reserved", ok, sites, failing)
+    ok, sites, failing = rule_slice_operands()
+    chk.add_rule("C04.S.slice_operands", ok, sites, failing)
     from ..kernels import c04_fuse, c04_scope
     from ..kernels.base import run_kernel
     for k in c04_fuse.KERNELS + c04_scope.KERNELS:
